@@ -720,6 +720,136 @@ pub fn run_c10(tier: Tier) -> i32 {
     });
     fams.push(json!({"family": "game histories over a shuffle alphabet x continuations, go depth 1/2 searchmoves m", "histories": jobs.len(), "engine_queries": queries.load(Ordering::Relaxed), "queries_whose_move_completes_a_threefold": threefold_queries.load(Ordering::Relaxed), "skipped_root_already_threefold": skipped_root_threefold.load(Ordering::Relaxed), "secs": t0.elapsed().as_secs_f64()}));
 
+    // ---- (a3) deeper lines: positions in which the weaker side has a forcing (checking) cycle, with a
+    // game history in which the cycle was already played once; go depth 4 / 5, whole root. The line
+    // that repeats is then the principal one, so the root score shows how its end node was valued.
+    let t0 = Instant::now();
+    let mut cyc_jobs: Vec<(Pos, Vec<Mv>)> = Vec::new();
+    {
+        // candidates: white K g1 + Q anywhere + three pawns against black K behind a pawn shield with a
+        // queen and two rooks: White is lost on material unless the checks repeat
+        let shields = ["5ppp", "5pp1", "5p1p", "6pp", "5p2", "6p1", "7p", "8"];
+        let kings = [6u8, 7, 5];
+        for sh in shields {
+            for &bk in &kings {
+                for q in 0..64u8 {
+                    let mut p = Pos::empty();
+                    let mut f = 0usize;
+                    for ch in sh.chars() {
+                        if let Some(d) = ch.to_digit(10) {
+                            f += d as usize;
+                        } else {
+                            p.board[8 + f] = pc(BLACK, PAWN);
+                            f += 1;
+                        }
+                    }
+                    p.board[bk as usize] = pc(BLACK, KING);
+                    p.board[62] = pc(WHITE, KING); // g1
+                    p.board[53] = pc(WHITE, PAWN); // f2
+                    p.board[54] = pc(WHITE, PAWN); // g2
+                    p.board[55] = pc(WHITE, PAWN); // h2
+                    p.board[48] = pc(BLACK, QUEEN); // a2
+                    p.board[0] = pc(BLACK, ROOK); // a8
+                    if bk != 5 {
+                        p.board[if bk == 6 { 5 } else { 4 }] = pc(BLACK, ROOK);
+                    } else {
+                        p.board[3] = pc(BLACK, ROOK);
+                    }
+                    if p.board[q as usize] != EMPTY {
+                        continue;
+                    }
+                    p.board[q as usize] = pc(WHITE, QUEEN);
+                    p.stm = WHITE;
+                    p.full = 30;
+                    if !p.is_legal_position() || p.in_check(WHITE) {
+                        continue;
+                    }
+                    // a 4-ply cycle of checks back to the root
+                    let mut found: Option<Vec<Mv>> = None;
+                    'search: for m1 in p.legal() {
+                        let p1 = p.make(&m1);
+                        if !p1.in_check(BLACK) || m1.is_capture() {
+                            continue;
+                        }
+                        for m2 in p1.legal() {
+                            let p2 = p1.make(&m2);
+                            if m2.is_capture() || m2.piece == PAWN {
+                                continue;
+                            }
+                            for m3 in p2.legal() {
+                                let p3 = p2.make(&m3);
+                                if !p3.in_check(BLACK) || m3.is_capture() {
+                                    continue;
+                                }
+                                for m4 in p3.legal() {
+                                    if p3.make(&m4).key() == p.key() {
+                                        found = Some(vec![m1, m2, m3, m4]);
+                                        break 'search;
+                                    }
+                                }
+                            }
+                        }
+                    }
+                    if let Some(cycle) = found {
+                        cyc_jobs.push((p, cycle));
+                    }
+                }
+            }
+        }
+    }
+    if tier == Tier::Quick {
+        cyc_jobs = cyc_jobs.into_iter().step_by(2).collect();
+    }
+    let cyc_n = AtomicU64::new(0);
+    let cyc_matter = AtomicU64::new(0);
+    par_map_fine(&cyc_jobs, |(base, cycle)| {
+        let mut line: Vec<Pos> = vec![base.clone()];
+        for m in cycle {
+            let q = line.last().unwrap().make(m);
+            line.push(q);
+        }
+        let root = line.last().unwrap().clone(); // == base position, second occurrence
+        let moves: Vec<String> = cycle.iter().map(|m| m.uci()).collect();
+        let depths: &[usize] = if tier == Tier::Quick { &[4] } else { &[4, 5] };
+        for &depth in depths {
+            let mut sess = Session::new(false);
+            let out = search_depth(&mut sess, base, &moves, depth, "");
+            sess.quit();
+            cyc_n.fetch_add(1, Ordering::Relaxed);
+            let case = |extra: Value| json!({"kind": "cycle", "base": base.to_fen(), "history": moves, "depth": depth, "detail": extra});
+            if let Some(pr) = &out.problem {
+                rep.report(format!("no_answer:{}", short(pr)), case(json!({"problem": pr})));
+                return;
+            }
+            let eval = |q: &Pos, l: bool| eval_hook(q, l);
+            let mut wants = Vec::new();
+            for c in [contempt, -contempt] {
+                let mut rs = RefSearch::new(&eval);
+                rs.history = line[..line.len() - 1].to_vec();
+                rs.repetition = Some(RepRule { draw, contempt: c });
+                wants.push(rs.root_value_ab_rep(&root, depth));
+            }
+            let mut rs0 = RefSearch::new(&eval);
+            let without_rule = rs0.root_ab(&root, depth).0;
+            if without_rule != wants[0] {
+                cyc_matter.fetch_add(1, Ordering::Relaxed);
+            }
+            let got = match out.score {
+                Some(Score::Centipawn { score }) => Some(score),
+                _ => None,
+            };
+            let mate_expected = wants.iter().any(|w| verif::is_checkmate_value(*w));
+            if !mate_expected && got != Some(wants[0]) && got != Some(wants[1]) {
+                let sig = if got == Some(without_rule) { "line_ending_in_third_occurrence_valued_by_material" } else { "value_differs_from_reference_with_repetition_rule" };
+                rep.report(format!("{}:depth{}", sig, depth), case(json!({"expected": wants, "reference_without_repetition_rule": without_rule, "actual": score_json(&out.score)})));
+            }
+        }
+    });
+    fams.push(json!({"family": "forcing check cycles (KQ+3P v KQRR+shield), cycle already played once, go depth 4/5", "positions": cyc_jobs.len(), "searches": cyc_n.load(Ordering::Relaxed), "searches_where_the_repetition_rule_changes_the_reference_value": cyc_matter.load(Ordering::Relaxed), "secs": t0.elapsed().as_secs_f64()}));
+    if cyc_matter.load(Ordering::Relaxed) == 0 {
+        rep.machinery("vacuous: the repetition rule never changes the reference value in the cycle family");
+    }
+
     // ---- (b) fifty-move rule
     let t0 = Instant::now();
     let fifty_roots = ["8/8/8/4k3/8/8/3Q4/4K3 w - - 0 80", "8/8/8/4k3/8/8/3Q4/4K3 b - - 0 80", "8/8/8/4k3/8/8/3R4/4K3 w - - 0 80", "8/8/4k3/8/8/3P4/8/4K3 w - - 0 80", "8/8/4k3/8/8/3P4/8/4K3 b - - 0 80", "4k3/3q4/8/8/4K3/8/8/8 b - - 0 80", "4k3/3r4/8/8/4K3/8/8/8 w - - 0 80", "r3k3/8/8/8/8/8/4P3/4K2R w K - 0 80"];
@@ -875,6 +1005,39 @@ pub fn replay(id: &str, case: &Value) -> i32 {
             println!("engine {:?}, reference {:?}", out.score, wants);
             if !ok {
                 rep.report("value_differs_from_reference_with_repetition_rule".to_string(), json!({"kind": "history", "base": p.to_fen(), "history": moves, "searchmove": sm, "depth": depth}));
+            }
+        }
+        ("C10", "cycle") => {
+            let moves: Vec<String> = case["history"].as_array().map(|a| a.iter().map(|v| v.as_str().unwrap_or("").to_string()).collect()).unwrap_or_default();
+            let mut line = vec![p.clone()];
+            for u in &moves {
+                let q = line.last().unwrap().clone();
+                match q.find_legal_uci(u) {
+                    Some(m) => line.push(q.make(&m)),
+                    None => return 2,
+                }
+            }
+            let root = line.last().unwrap().clone();
+            let mut sess = Session::new(false);
+            let out = search_depth(&mut sess, &p, &moves, depth, "");
+            sess.quit();
+            let eval = |q: &Pos, l: bool| eval_hook(q, l);
+            let mut wants = Vec::new();
+            for c in [verif::contempt(), -verif::contempt()] {
+                let mut rs = RefSearch::new(&eval);
+                rs.history = line[..line.len() - 1].to_vec();
+                rs.repetition = Some(RepRule { draw: verif::draw_score(), contempt: c });
+                wants.push(rs.root(&root, depth, None).0);
+            }
+            let mut rs0 = RefSearch::new(&eval);
+            let without = rs0.root(&root, depth, None).0;
+            println!("engine {:?} (pv {:?}), reference with repetition rule {:?}, without {}", out.score, out.pv, wants, without);
+            let got = match out.score {
+                Some(Score::Centipawn { score }) => Some(score),
+                _ => None,
+            };
+            if got != Some(wants[0]) && got != Some(wants[1]) {
+                rep.report("value_differs_from_reference_with_repetition_rule".to_string(), json!({"kind": "cycle", "base": p.to_fen(), "history": moves, "depth": depth}));
             }
         }
         ("C10", "history_unit") => {
